@@ -310,6 +310,7 @@ pub fn run(out: &mut Out, thorough: bool, seed: u64, _extra: &[String]) {
         let tm = Modulus::new(t);
         out.case(&format!("balance {} {} {}", f1, f2, t), "balance", || { let (f, e1, e2) = Evaluator::verif_balance_correction_factors(f1, f2, &tm); format!("{},{},{}", f, e1, e2) });
     }
+    crate::wrappers::run(out, &mut r, if thorough { 120 } else { 24 }, false);
     let programs = if thorough { 400 } else { 24 };
     let steps = if thorough { 14 } else { 10 };
     for pi in 0..programs {
